@@ -115,9 +115,19 @@ fn insn(g: &mut G<'_>, n: usize) -> Insn {
             },
             22 => Insn::NewArray(PrimType::ALL[g.below(8)]),
             23 => {
-                let dims = 1 + g.below(4);
-                let mut d = vec![b'['; dims + g.below(2)];
-                d.extend_from_slice(g.field_desc().as_bytes());
+                // the dimension byte is an operand that can look like any opcode (16 = bipush, 17 = sipush, 167 = goto,
+                // 170 = tableswitch ...): a pass that mis-sizes the instruction is only visible then
+                let dims = if g.chance(20) { 1 + g.below(255) } else { 1 + g.below(4) };
+                let base = g.field_desc();
+                let base = base.as_bytes();
+                let own = base.iter().take_while(|b| **b == b'[').count();
+                let extra = if dims + own < 255 { g.below(2) } else { 0 };
+                let mut d = vec![b'['; dims + extra];
+                if dims + extra + own > 255 {
+                    d.extend_from_slice(&base[own..]);
+                } else {
+                    d.extend_from_slice(base);
+                }
                 Insn::MultiANewArray(JStr(d), dims as u8)
             }
             _ => continue,
